@@ -1,6 +1,6 @@
 (* C20 — grid equality distinguishes any difference in coordinates or connectivity.
    c20_eq_formula / c20_ne_formula are regenerated from Grid.__eq__/__ne__ on every run. *)
-From Verif Require Import Base C20 C20_proofs.
+From Verif Require Import Base C20 C20_proofs C20_more_proofs.
 
 Theorem C20_formula : forall a b c d e, c20_eq_formula a b c d e = a && b && c && d && e.
 Proof. exact c20_formula_conj. Qed.
@@ -52,3 +52,20 @@ Print Assumptions C20_ne.
 Theorem C20_nongrid : forall b c d e, c20_eq_nongrid b c d e = false.
 Proof. exact c20_nongrid_false. Qed.
 Print Assumptions C20_nongrid.
+
+(* equality is the identity of the four observed components, hence an equivalence; != is its complement *)
+Theorem C20_eq_is_identity : forall g h, c20_eq g h = true <-> g = h.
+Proof. exact c20_eq_is_identity. Qed.
+Print Assumptions C20_eq_is_identity.
+
+Theorem C20_trans : forall g h k, c20_eq g h = true -> c20_eq h k = true -> c20_eq g k = true.
+Proof. exact c20_eq_trans. Qed.
+Print Assumptions C20_trans.
+
+Theorem C20_ne_iff : forall g h, c20_ne g h = true <-> g <> h.
+Proof. exact c20_ne_iff. Qed.
+Print Assumptions C20_ne_iff.
+
+Theorem C20_eq_xor_ne : forall g h, xorb (c20_eq g h) (c20_ne g h) = true.
+Proof. exact c20_eq_xor_ne. Qed.
+Print Assumptions C20_eq_xor_ne.
